@@ -26,4 +26,62 @@ theorem gen_transform_no_assertion (tf : SepTransform) (sp : SepPair) :
     AdaptaVerif.Gen.SepPair.transform_pre tf sp.xst sp.yst sp.xgt sp.ygt sp.xgap sp.ygap = true := by
   cases tf <;> rfl
 
+/-! ### the other small `SepPair` methods, regenerated with `this` as the model's record -/
+
+open AdaptaVerif.Num in
+theorem eqVal_zero (x : SZ) : SZ.eqVal x (SZ.ofRat 0) = x.isZero := by
+  have hz : SZ.ofRat 0 = ⟨false, 0⟩ := by
+    have : ¬ ((0 : Rat) < 0) := by grind
+    simp only [SZ.ofRat, this, if_false]
+  rw [hz]
+  cases x with
+  | mk n m =>
+    cases n
+    · simp [SZ.eqVal, SZ.toRat, SZ.isZero]
+    · simp only [SZ.eqVal, SZ.toRat, SZ.isZero, if_true, Bool.false_eq_true, if_false]
+      by_cases h : m = 0
+      · subst h; simp
+      · have h2 : ¬ (-m = 0) := by intro e; apply h; grind
+        have e1 : (-m == 0) = false := by simpa using h2
+        have e2 : (m == 0) = false := by simpa using h
+        rw [e1, e2]
+
+/-- `SepPair::addSep(gt, sd, st, gap)`: a switch over the eight directions writing up to six members -/
+theorem gen_addSep_is_model (sp : SepPair) (gt : GapType) (sd : SepDir) (st : SepType) (gap : AdaptaVerif.Num.SZ) :
+    AdaptaVerif.Gen.SepPair.addSep gt sd st gap sp = sp.addSep gt sd st gap := by
+  cases st <;> cases sd <;> rfl
+
+theorem gen_roundGapsUpAbs_is_model (sp : SepPair) :
+    AdaptaVerif.Gen.SepPair.roundGapsUpAbs sp = sp.roundGapsUpAbs := rfl
+
+theorem gen_predicates_are_model (sp : SepPair) :
+    AdaptaVerif.Gen.SepPair.isVAlign sp = sp.isVAlign ∧ AdaptaVerif.Gen.SepPair.isHAlign sp = sp.isHAlign ∧
+    AdaptaVerif.Gen.SepPair.isVerticalCardinal sp = sp.isVerticalCardinal ∧
+    AdaptaVerif.Gen.SepPair.isHorizontalCardinal sp = sp.isHorizontalCardinal ∧
+    AdaptaVerif.Gen.SepPair.isCardinal sp = sp.isCardinal := by
+  have hv : AdaptaVerif.Gen.SepPair.isVerticalCardinal sp = sp.isVerticalCardinal := by
+    simp only [AdaptaVerif.Gen.SepPair.isVerticalCardinal, SepPair.isVerticalCardinal, eqVal_zero]
+    cases sp.xgt <;> cases sp.xst <;> cases sp.yst <;> cases sp.ygt <;> simp <;>
+      (have a : (SepType.eq != SepType.none) = true := by decide
+       have b : (SepType.ineq != SepType.none) = true := by decide
+       have c : (GapType.centre == GapType.bdry) = false := by decide
+       simp [a, b, c])
+  have hh : AdaptaVerif.Gen.SepPair.isHorizontalCardinal sp = sp.isHorizontalCardinal := by
+    simp only [AdaptaVerif.Gen.SepPair.isHorizontalCardinal, SepPair.isHorizontalCardinal, eqVal_zero]
+    cases sp.xgt <;> cases sp.xst <;> cases sp.yst <;> cases sp.ygt <;> simp <;>
+      (have a : (SepType.eq != SepType.none) = true := by decide
+       have b : (SepType.ineq != SepType.none) = true := by decide
+       have c : (GapType.centre == GapType.bdry) = false := by decide
+       simp [a, b, c])
+  refine ⟨?_, ?_, hv, hh, ?_⟩
+  · simp only [AdaptaVerif.Gen.SepPair.isVAlign, SepPair.isVAlign, eqVal_zero]
+    cases sp.xgt <;> cases sp.xst <;> simp
+  · simp only [AdaptaVerif.Gen.SepPair.isHAlign, SepPair.isHAlign, eqVal_zero]
+    cases sp.ygt <;> cases sp.yst <;> simp
+  · simp only [AdaptaVerif.Gen.SepPair.isCardinal, SepPair.isCardinal, hv, hh]
+
+theorem gen_hasConstraintInDim_is_model (sp : SepPair) (d : Dim) :
+    AdaptaVerif.Gen.SepPair.hasConstraintInDim d sp = sp.hasConstraintInDim d := by
+  cases d <;> simp [AdaptaVerif.Gen.SepPair.hasConstraintInDim, SepPair.hasConstraintInDim] <;> cases sp.xst <;> cases sp.yst <;> simp
+
 end AdaptaVerif.Props.C18Tie2
